@@ -170,3 +170,12 @@ def replay(c: Campaign, rec: dict[str, Any]) -> int:
         return 1
     print("replay: no violation")
     return 0
+
+
+def regress(c: Campaign, rec: dict[str, Any]) -> None:
+    case = rec["case"]
+    run_ = Run(case["spec"], make_schedule(case["schedule"]))
+    for at, ref in case["schedule"].get("dup_startstage", []):
+        run_.injections.setdefault(at, []).append(inj_start_stage(ref))
+    run_.drain()
+    judge(c, case["spec"], run_, case["schedule"], ["regression"])
